@@ -53,12 +53,15 @@ type Violation struct {
 }
 
 type Case struct {
-	Prop      string          `json:"property"`
-	Engine    string          `json:"engine"`
-	Seed      uint64          `json:"seed"`
-	Run       int             `json:"run"`
-	Tier      string          `json:"tier"`
-	Tree      string          `json:"tree,omitempty"`
+	Prop   string `json:"property"`
+	Engine string `json:"engine"`
+	Seed   uint64 `json:"seed"`
+	Run    int    `json:"run"`
+	Tier   string `json:"tier"`
+	Tree   string `json:"tree,omitempty"`
+	// Arch: the GOARCH the worker that ran the case was built for, when it is not the machine's own (the replay
+	// builds its worker for it)
+	Arch      string          `json:"goarch,omitempty"`
 	Cfg       json.RawMessage `json:"config"`
 	Callers   [][]Op          `json:"callers"`
 	Sched     *SchedSpec      `json:"sched,omitempty"`
